@@ -5,7 +5,7 @@ import json, os, re, shutil
 import vlib
 
 ALL_KINDS = {"get_a", "get_b", "get_c", "post_d", "get_e", "get_f", "head_a", "head_b", "head_c", "range_a", "range_b", "bad_a",
-             "getbody_a", "post_big", "get_g"}
+             "getbody_a", "post_big", "get_g", "post_expect_f"}
 
 
 def relay_run(slices, backend="memory", transports=("plain", "tunnel")):
